@@ -290,7 +290,7 @@ _ADD = {
     'C16': (' Registration (Reg layer): created_anytime_tracks_latest over all interleavings of updates and registrations (any number of breakers).', ' Plus: two breakers per manager, registration racing an update, recurring version strings.'),
     'C17': (' Registration (Reg layer): created_anytime_tracks_latest.', ' Plus: two retry containers with late registration, returning table generations, routes sharing a cluster, registration racing an update.'),
     'C18': (' Registration (Reg layer): created_anytime_tracks_latest.', ' Plus: rejected listener responses between accepted ones, registration racing an update.'),
-    'C19': (' dropped_keeps_clock: a name removed by a complete update keeps its idle clock (the cleaner still withdraws it); unsubscribed_update_ignored / evicted_stays_out: no update caches a name outside the interest set, so a response that crosses the unsubscription cannot bring an evicted entry back.', ' Plus: a world with 1 100 idle resources whose connection is stalled over the sweep (every withdrawal must reach the control plane).'),
+    'C19': (' The whole tick (Proofs/Sweep): sweep_exact - a fold of the loop body over the entries in ANY visiting order (with repetitions) removes exactly the visited entries idle for longer than the period and not reserved, withdraws them from the interest set with a request omitting each, and keeps every other entry and subscription; sweep_any_order - the outcome does not depend on the map iteration order. dropped_keeps_clock: a name removed by a complete update keeps its idle clock (the cleaner still withdraws it); unsubscribed_update_ignored / evicted_stays_out: no update caches a name outside the interest set, so a response that crosses the unsubscription cannot bring an evicted entry back.', ' Plus: a world with 1 100 idle resources whose connection is stalled over the sweep (every withdrawal must reach the control plane).'),
     'C20': (' History of Init calls: init_failures_all_reported, init_after_success, init_first_success_wins (fact initShape); set_overlapping_one_winner: overlapping calls of SetXDSResourceManager, in any lock order, install one manager throughout.', ' Plus: 16 overlapping first calls of SetXDSResourceManager lined up at the holder\'s lock (verif hook VerifHoldManager, child processes): one manager for every caller and in the end; three Init calls on a partly repaired environment (child process), node identity on acknowledgement, rejection, re-subscription and changes on a second stream.'),
 }
 for _k, (_lt, _rule) in _ADD.items():
